@@ -24,11 +24,42 @@ def section_tokens(text, title):
     lines = text.split("\n")
     for i, ln in enumerate(lines):
         if title in ln:
-            caps = [j for j in range(i + 1, len(lines)) if lines[j].startswith("+-")]
+            # (a one-species listing two characters wide has the cap "++")
+            caps = [j for j in range(i + 1, len(lines)) if re.match(r"^\+-*\+\s*$", lines[j])]
             if len(caps) >= 2:
                 body = lines[caps[0] + 1:caps[1]]
                 return [t for l in body for t in l.split()]
     return None
+
+
+def _spread_file(pf, path, lv):
+    """binary files larger than 2 GiB / 4 GiB without the disk space: the FABs of every binary file of level lv are moved apart
+    (holes of a sparse file in between) and the level header records the new byte positions - what a reader sees of a large
+    plotfile (byte offsets that do not fit 32 bits)."""
+    import re as _re
+    lvdir = os.path.join(path, f"Level_{lv}")
+    ch = os.path.join(lvdir, "Cell_H")
+    lines = open(ch).read().split("\n")
+    gaps = [0, 40000, 2 ** 31 + 4096, 2 ** 31 + 65536, 2 ** 32 + 40000, 2 ** 33 + 8]
+    for fn in sorted(set(pf.files[lv])):
+        fp = os.path.join(lvdir, fn)
+        blob = open(fp, "rb").read()
+        scan = oracle.scan_file(fp)
+        newpos = {}
+        with open(fp, "wb") as fh:
+            pos = 0
+            for k, (lo, hi, nc, hoff, doff, nbytes) in enumerate(scan):
+                pos = max(pos, gaps[min(k, len(gaps) - 1)])
+                fh.seek(pos)
+                fh.write(blob[hoff:doff + nbytes])
+                newpos[hoff] = pos
+                pos += doff + nbytes - hoff
+        for i, ln in enumerate(lines):
+            m = _re.match(r"^FabOnDisk: (\S+) (\d+)$", ln)
+            if m and m.group(1) == fn:
+                lines[i] = f"FabOnDisk: {fn} {newpos[int(m.group(2))]}"
+    open(ch, "w").write("\n".join(lines))
+    pf.offsets = None
 
 
 def run_menu_scenario(p, wd):
@@ -47,6 +78,8 @@ def run_menu_scenario(p, wd):
     pp = dict(p)
     pp["nf"] = len(names)
     pf, path = make_input(pp, wd, names=names, payload=payload, specials=False)
+    if p.get("large_offsets"):
+        _spread_file(pf, path, pf.L)
     # --- minuterie
     checks += 1
     old = sys.argv
@@ -142,9 +175,10 @@ def run_menu_scenario(p, wd):
                 fails.append({"what": "unpickled reader exposes different metadata", "call": "marinate <plt>", "detail": ""})
             else:
                 lv = pf.L
-                b = rng.randrange(pf.nboxes(lv))
-                if not bits_equal(pk[:][lv][b], pf.data[lv][b]):
-                    fails.append({"what": "unpickled reader reads different box data", "call": "marinate <plt>", "detail": f"level {lv} box {b}"})
+                for b in (range(pf.nboxes(lv)) if p.get("large_offsets") else [rng.randrange(pf.nboxes(lv))]):
+                    if not bits_equal(pk[:][lv][b], pf.data[lv][b]):
+                        fails.append({"what": "unpickled reader reads different box data", "call": "marinate <plt>", "detail": f"level {lv} box {b}"})
+                        break
         except Exception as e:      # noqa
             fails.append({"what": "marinate raised", "call": "marinate <plt>", "detail": f"{type(e).__name__}: {str(e)[:100]}"})
         finally:
